@@ -29,6 +29,7 @@ fn main() {
         }
     }
     install_panic_hook();
+    ptv::engine::start_watchdog(id.clone(), if tier == "thorough" { 300 } else { 60 });
     let code = run_check(&id, &tier, seed, replay.as_deref());
     std::process::exit(code);
 }
